@@ -616,6 +616,43 @@ func managerCase(c *fw.Ctx, s *section, r *fw.Rand, doc map[string]interface{}, 
 		m3.Shutdown()
 		os.Remove(p)
 	}
+	// relocation: what a full file saves as must not depend on the directory it was loaded from
+	for n := 0; n < 6; n++ {
+		l := ls[r.Intn(len(ls))]
+		cs := candidates(r, l.path[len(l.path)-1], l.val)
+		cd := cs[r.Intn(len(cs))]
+		f := clone(full)
+		sec := locate(f)
+		if s.name == "cluster" {
+			sec["secret"] = canarySecret
+		}
+		setPath(sec, l.path, cd.v)
+		fb, _ := json.MarshalIndent(f, "", " ")
+		var outs [2]string
+		var oks [2]bool
+		for i, sub := range []string{fmt.Sprintf("reloc-a-%d", c.CaseIdx()), fmt.Sprintf("reloc-b-%d/deeper", c.CaseIdx())} {
+			d := filepath.Join(c.Dir, sub)
+			os.MkdirAll(d, 0o755)
+			p := filepath.Join(d, "service.json")
+			os.WriteFile(p, fb, 0o600)
+			mm, _ := newManager(c)
+			if err := mm.LoadJSONFromFile(p); err == nil {
+				if out, err := mm.ToJSON(); err == nil {
+					outs[i], oks[i] = string(out), true
+				}
+			}
+			mm.Shutdown()
+			os.RemoveAll(filepath.Join(c.Dir, strings.SplitN(sub, "/", 2)[0]))
+		}
+		c.Eval(fmt.Sprintf("manager-relocation/%s/%s/%v", s.name, pathStr(l.path), oks[0] && oks[1]))
+		if oks[0] != oks[1] {
+			c.Violation("C15/manager/acceptance-depends-on-file-location/"+s.name, fmt.Sprintf("the same full file (%s = %v) is accepted in one directory and refused in another", pathStr(l.path), cd.v), nil)
+		} else if oks[0] && outs[0] != outs[1] {
+			c.Violation("C15/manager/saved-configuration-depends-on-file-location/"+s.name+"/"+pathStr(l.path),
+				fmt.Sprintf("the same full file (%s = %v) loaded from two directories saves differently: a setting was rewritten relative to the file's location", pathStr(l.path), cd.v),
+				map[string]interface{}{"a": outs[0], "b": outs[1]})
+		}
+	}
 	// environment through the Manager: a variable of this section has the same effect
 	// whether the file spells the section out (at its defaults) or leaves it out
 	if s.typ != config.Cluster {
